@@ -109,61 +109,53 @@ AppendChunk(acc, c) ==
     acc \o SelectSeq(c.samples, LAMBDA s : acc = <<>> \/ s[1] > acc[Len(acc)][1])
 ChainSamples(chain) == FoldLeft(AppendChunk, <<>>, chain)
 
-(* boundedSeriesIterator over a chain: an iterator value is [s, hi].  s = the    *)
-(* samples at or after mint; Next never returns a sample after maxt = hi, but    *)
-(* Seek(x) only refuses x > hi: it may stop on (and hand out) the first sample   *)
-(* after hi.  An inner dedup iterator is [s |-> its output, hi |-> Infinity].    *)
-Infinity == 2000000000
-Leaf(ss, lo, hi) == [s |-> SelectSeq(ss, LAMBDA x : x[1] >= lo), hi |-> hi]
-Exhausted(it) == Len(it.s) + 1
-(* position after the constructor's initial Next() *)
-FirstPos(it) == IF it.s # <<>> /\ it.s[1][1] <= it.hi THEN 1 ELSE Exhausted(it)
+(* boundedSeriesIterator: the samples of the chain inside [mint, maxt].          *)
+(* Abstraction: the real iterator's Seek(x) only refuses x > maxt, so it may     *)
+(* stop on - and the outermost dedup iterator may hand out - the first sample    *)
+(* AFTER maxt.  Nothing before that point is affected (a leaf parked on such a   *)
+(* sample loses every comparison against in-range samples), so the model cuts    *)
+(* the chain at maxt and predicts the answer INSIDE the query range only.        *)
+Bounded(ss, lo, hi) == InRange(ss, lo, hi)
 
 (* position of the first sample at or after x, starting at i (Len+1 = exhausted) *)
 RECURSIVE SeekFrom(_, _, _)
 SeekFrom(s, i, x) == IF i > Len(s) \/ s[i][1] >= x THEN i ELSE SeekFrom(s, i + 1, x)
-SeekIt(it, i, x) == IF i > Len(it.s) \/ x > it.hi THEN Exhausted(it) ELSE SeekFrom(it.s, i, x)
 
-(* dedupSeriesIterator (penalty algorithm).  Both inputs are consumed through    *)
-(* Next/Seek after an initial Next, so an inner dedup iterator behaves as the    *)
-(* sequence of its own output.                                                   *)
+(* dedupSeriesIterator (penalty algorithm) over two sample sequences.  Both      *)
+(* inputs are consumed through Next/Seek after an initial Next, so an inner      *)
+(* dedup iterator behaves as the sequence of its own output.                     *)
 InitialPenalty == 5000
 NoT == -1                       \* "lastT = math.MinInt64": nothing returned yet
 
 RECURSIVE PenaltyLoop(_, _, _, _, _, _, _, _)
 PenaltyLoop(a, b, ia, ib, lastT, penA, penB, out) ==
-    LET ja == IF lastT = NoT THEN ia ELSE SeekIt(a, ia, lastT + 1 + penA)
-        jb == IF lastT = NoT THEN ib ELSE SeekIt(b, ib, lastT + 1 + penB)
+    LET ja == IF lastT = NoT THEN ia ELSE SeekFrom(a, ia, lastT + 1 + penA)
+        jb == IF lastT = NoT THEN ib ELSE SeekFrom(b, ib, lastT + 1 + penB)
     IN
-    IF ja > Len(a.s) THEN
-        IF jb > Len(b.s) THEN out
-        ELSE PenaltyLoop(a, b, ja, jb, b.s[jb][1], penA, 0, Append(out, b.s[jb]))
-    ELSE IF jb > Len(b.s) THEN
-        PenaltyLoop(a, b, ja, jb, a.s[ja][1], 0, penB, Append(out, a.s[ja]))
-    ELSE IF a.s[ja][1] <= b.s[jb][1] THEN
-        PenaltyLoop(a, b, ja, jb, a.s[ja][1], 0,
-                    IF lastT = NoT THEN InitialPenalty ELSE 2 * (a.s[ja][1] - lastT),
-                    Append(out, a.s[ja]))
+    IF ja > Len(a) THEN
+        IF jb > Len(b) THEN out
+        ELSE PenaltyLoop(a, b, ja, jb, b[jb][1], penA, 0, Append(out, b[jb]))
+    ELSE IF jb > Len(b) THEN
+        PenaltyLoop(a, b, ja, jb, a[ja][1], 0, penB, Append(out, a[ja]))
+    ELSE IF a[ja][1] <= b[jb][1] THEN
+        PenaltyLoop(a, b, ja, jb, a[ja][1], 0,
+                    IF lastT = NoT THEN InitialPenalty ELSE 2 * (a[ja][1] - lastT),
+                    Append(out, a[ja]))
     ELSE
-        PenaltyLoop(a, b, ja, jb, b.s[jb][1],
-                    IF lastT = NoT THEN InitialPenalty ELSE 2 * (b.s[jb][1] - lastT), 0,
-                    Append(out, b.s[jb]))
-PenaltyMerge(a, b) ==
-    [s |-> PenaltyLoop(a, b, FirstPos(a), FirstPos(b), NoT, 0, 0, <<>>), hi |-> Infinity]
+        PenaltyLoop(a, b, ja, jb, b[jb][1],
+                    IF lastT = NoT THEN InitialPenalty ELSE 2 * (b[jb][1] - lastT), 0,
+                    Append(out, b[jb]))
+PenaltyMerge(a, b) == PenaltyLoop(a, b, 1, 1, NoT, 0, 0, <<>>)
 
-(* dedupSeries.Iterator: left fold over the replicas (chains) of one label set;  *)
-(* a single chain is read with Next only (bounded exactly).                      *)
-DedupFold(leaves) ==
-    IF leaves = <<>> THEN <<>>
-    ELSE IF Len(leaves) = 1 THEN SelectSeq(leaves[1].s, LAMBDA x : x[1] <= leaves[1].hi)
-    ELSE FoldLeft(PenaltyMerge, leaves[1], Tail(leaves)).s
+(* dedupSeries.Iterator: left fold over the replicas (chains) of one label set.  *)
+DedupFold(seqs) == IF seqs = <<>> THEN <<>> ELSE FoldLeft(PenaltyMerge, seqs[1], Tail(seqs))
 
 (* The whole sample pipeline for one label set, given the chunks the stores      *)
 (* returned for it.                                                              *)
 PipelineDedup(chs, lo, hi) ==
     LET chains == OverlapSplit(MergeChunks(chs))
-    IN DedupFold([i \in 1..Len(chains) |-> Leaf(ChainSamples(chains[i]), lo, hi)])
-PipelinePlain(chs, lo, hi) == InRange(ChainSamples(MergeChunks(chs)), lo, hi)
+    IN DedupFold([i \in 1..Len(chains) |-> Bounded(ChainSamples(chains[i]), lo, hi)])
+PipelinePlain(chs, lo, hi) == Bounded(ChainSamples(MergeChunks(chs)), lo, hi)
 
 (* Chunks of the replicas in G that the stores hand to the proxy for [lo, hi].  *)
 (* The tie of a chunk is its replica's `id` (any total order will do).          *)
